@@ -91,6 +91,9 @@ OnlineVerdict(fv) ==
     IF ~T.online THEN "skip"
     ELSE IF Fin.raised \in {"budget", "timeout", "RecursionError"} THEN "skip"
     ELSE IF Fin.host # 0 THEN "violation:host-stdout-written"
+    \* a run that fails BY CONSTRUCTION (unbounded recursion, an undefined name, an empty global array -- met
+    \* eagerly or while a lazy value is printed) must end in the error record
+    ELSE IF "mustfail" \in DOMAIN T /\ T.mustfail /\ Fin.raised # "SystemExit" THEN "violation:error-not-reported"
     ELSE IF Fin.canary # 0 THEN "violation:user-text-executed-as-python"
     ELSE IF Fin.raised \notin {"", "SystemExit"} THEN "violation:exception-propagated-" \o Fin.raised
     ELSE IF Fin.raised = "SystemExit" /\ Fin.rec2 = 0 THEN "violation:error-not-recorded"
